@@ -9,6 +9,8 @@ import (
 	"encoding/hex"
 	"encoding/json"
 	"fmt"
+	"io"
+	"strings"
 	"time"
 
 	"github.com/mandykoh/prism/meta/icc"
@@ -141,6 +143,59 @@ func c16Check(h []byte, via string) (kind, msg string) {
 		}
 	case "short-reads":
 		p, err, pan = readProfile(shortByteReader{src.New(prof).Sizes(1, 2, 3, 5)})
+	case "bytes.Reader@offset": // a reader that has already been consumed up to where the profile starts
+		for _, off := range []int{1, 128, 4097} {
+			br := bytes.NewReader(append(bytes.Repeat([]byte{0xA5}, off), prof...))
+			_, _ = br.Seek(int64(off), io.SeekStart)
+			p, err, pan = readProfile(br)
+			if err != nil || pan != nil || p == nil || !e.SignatureOK {
+				break
+			}
+			if f, d := c16Compare(e, p); f != "" {
+				return "field/" + f, d + fmt.Sprintf(" (header %x read from a *bytes.Reader positioned at offset %d)", h, off)
+			}
+		}
+	case "strings.Reader@offset":
+		sr := strings.NewReader("prefix!" + string(prof))
+		_, _ = sr.Seek(7, io.SeekStart)
+		p, err, pan = readProfile(sr)
+	case "bytes.Buffer":
+		bb := bytes.NewBuffer(append([]byte("xyz"), prof...))
+		bb.Next(3)
+		p, err, pan = readProfile(bb)
+	case "section":
+		p, err, pan = readProfile(bufio.NewReaderSize(io.NewSectionReader(bytes.NewReader(append(make([]byte, 300), prof...)), 300, int64(len(prof))), 16))
+	case "second-in-reader": // two profiles back to back in one reader: the second one's header is at offset len(first)
+		other := append([]byte{}, h...)
+		for i := range other {
+			if i < 36 || i >= 40 {
+				other[i] ^= 0xFF
+			}
+		}
+		binary.BigEndian.PutUint32(other[0:], 0) // size field is rewritten by c16Profile? keep the declared size consistent below
+		first := c16Profile(other)
+		br := bytes.NewReader(append(append([]byte{}, first...), prof...))
+		if _, e1, p1 := readProfile(br); e1 != nil || p1 != nil {
+			return "", "first profile not readable: n/a"
+		}
+		if int(br.Size())-br.Len() != len(first) {
+			return "", "reader position after the first profile is not its end: n/a"
+		}
+		p, err, pan = readProfile(br)
+	case "after-rejected": // history: a profile with the complementary header bits is rejected part-way first
+		other := append([]byte{}, h...)
+		for i := range other {
+			if i < 36 || i >= 40 {
+				other[i] ^= 0xFF
+			}
+		}
+		full := c16Profile(other)
+		for _, cut := range []int{48, 100, 127, 128, 130, 135} {
+			if cut <= len(full) {
+				_, _, _ = readProfile(bytes.NewReader(full[:cut]))
+			}
+		}
+		p, err, pan = readProfile(bytes.NewReader(prof))
 	default:
 		p, err, pan = readProfile(bytes.NewReader(prof))
 	}
@@ -260,6 +315,40 @@ func runC16(r *core.Run) {
 			}
 		}
 	}
+	// values a hair away from the constants real profiles carry (D50 illuminant, common versions,
+	// class / space / platform signatures): a reader that "normalises" near-standard values shows here
+	{
+		std := imggen.MinimalHeader(true)
+		words := []int{0, 4, 8, 12, 16, 20, 40, 44, 48, 52, 56, 60, 64, 68, 72, 76, 80}
+		for _, off := range words {
+			for d := -4; d <= 4; d++ {
+				if d == 0 {
+					continue
+				}
+				h := append([]byte{}, std[:]...)
+				binary.BigEndian.PutUint32(h[off:], binary.BigEndian.Uint32(h[off:])+uint32(d))
+				headers = append(headers, h)
+			}
+		}
+		// the PCS illuminant: D50 as ICC writes it, each word off by up to 4 in every combination of signs
+		d50 := [3]uint32{0x0000F6D6, 0x00010000, 0x0000D32D}
+		for _, dx := range []int{-4, -3, -1, 0, 1, 2, 3} {
+			for _, dy := range []int{-2, -1, 0, 1, 3} {
+				for _, dz := range []int{-3, -1, 0, 1, 2, 4} {
+					for k := 0; k < 2; k++ {
+						h := base(k * 2)
+						if k == 0 {
+							h = append([]byte{}, std[:]...)
+						}
+						binary.BigEndian.PutUint32(h[68:], d50[0]+uint32(dx))
+						binary.BigEndian.PutUint32(h[72:], d50[1]+uint32(dy))
+						binary.BigEndian.PutUint32(h[76:], d50[2]+uint32(dz))
+						headers = append(headers, h)
+					}
+				}
+			}
+		}
+	}
 	nrand := 100000
 	if r.Thorough() {
 		nrand = 10000000
@@ -278,7 +367,7 @@ func runC16(r *core.Run) {
 		}
 		r.AddEvals(1)
 		if i%17 == 0 {
-			for _, via := range []string{"png", "bufio@4000", "short-reads"} {
+			for _, via := range []string{"png", "bufio@4000", "short-reads", "bytes.Reader@offset", "strings.Reader@offset", "bytes.Buffer", "section", "second-in-reader", "after-rejected"} {
 				if kind, msg := c16Check(h, via); kind != "" {
 					r.Violate("header", kind+"/"+via, msg, c16Case{Header: hex.EncodeToString(h), Via: via})
 				}
